@@ -482,6 +482,8 @@ class Fn:
         return tuple(out)
 
     def _origins_place(self, local, pj, seen, outargs, stop):
+        if len(pj) > 8:
+            pj = pj[:8]
         key = (local, pj)
         if key in seen:
             return set()
@@ -495,7 +497,8 @@ class Fn:
             dpj = tuple(self._pj(dproj))
             if len(dpj) <= len(pj) and pj[:len(dpj)] == dpj:
                 rest = pj[len(dpj):]
-                if not dpj:
+                # `(*p) = v` stores through the pointer: it does not redefine the local itself
+                if not dpj and not (dproj and dproj[0] == "*"):
                     whole = True
             elif pj == dpj[:len(pj)]:
                 rest = ()
